@@ -143,8 +143,19 @@ def world(wid, seed):
 _ELECTIONS = {}
 
 
-def _election(eseed, district=False, big=False, n_units=None):
-    key = (eseed, district, big, n_units)
+def _election(eseed, district=False, big=False, n_units=None, nan_cls=False):
+    key = (eseed, district, big, n_units, nan_cls)
+    if nan_cls and key not in _ELECTIONS:
+        # two units without a classification, taken from the most frequent classes so that the frequencies of the
+        # remaining classes tie exactly: whatever a model does about a missing stratum must not be decided by the
+        # iteration order of a set (seeded change C12_G).  Only in worlds whose requests do not join stratum names.
+        pre, cur = _election(eseed, district, big, n_units)
+        pre = pre.copy()
+        for _ in range(2):
+            vc = pre["county_classification"].value_counts()
+            top = sorted(c for c in vc.index if vc[c] == vc.max())[0]
+            pre.loc[pre.index[pre.county_classification == top][-1], "county_classification"] = np.nan
+        _ELECTIONS[key] = (pre, cur)
     if big and key not in _ELECTIONS:
         # one state with several thousand precincts: more than a thousand gaussian calibration units in one group (whatever
         # is done to very large groups - subsampling, chunking - must be seed-derived too: seeded change C12_F)
@@ -173,7 +184,7 @@ def _election(eseed, district=False, big=False, n_units=None):
             cur = pd.concat([cur, extra], ignore_index=True)
         else:
             # the baseline of turnout may be pointed at another column by the configuration (`baseline_pointer`); the
-            # column is there for every unit, requests on even elections use it (seeded change C13_H)
+            # column is there for every unit, gaussian requests use it (seeded change C13_H)
             pre["baseline_turnout_pres"] = (pre["baseline_turnout"] * 1.15).round().astype(int)
             # (for a few units the other baseline is far away: a turnout factor computed against it would fall outside the
             #  limits, one computed against baseline_turnout does not - which units are set aside must not depend on whether
@@ -219,6 +230,8 @@ def run_history(w, hist):
     """Execute one TLC history on the real client.  Returns one observation per call: tok + per-table digests."""
     from elexmodel.client import ModelClient
 
+    # (nan_cls stays off: on the tree as it is a missing classification makes the bootstrap estimator raise as soon as
+    #  the classification is an aggregate level or one of several strata - TypeError in the join of the level names)
     pre, cur = _election(w["eseed"], big=bool(w.get("big")))
     # the caller's baseline frame: ONE object for the whole history (every call is handed the same frame, as a caller
     # that loads its baseline data once would do); whatever a run does to it must not change what a later run returns
@@ -478,7 +491,9 @@ def run_request(job):
     t0 = time.time()
     _SINK = []
     try:
-        pointer = {"turnout": "turnout_pres"} if (not district and eseed % 2 == 0 and req["estimator"] != "bootstrap") else None
+        # (gaussian requests use the configuration whose turnout baseline points at the other column, the others the
+        #  identity pointers: the cells of one estimator are only ever compared with cells of the same estimator)
+        pointer = {"turnout": "turnout_pres"} if (not district and req["estimator"] == "gaussian") else None
         res = call_estimates(ModelClient(), pre, cur, req["estimator"], request_args(req), office=office, gut=gut, pointer=pointer)
         for tname, df in res.items():
             lvl = LEVEL_OF_TABLE.get(tname, tname)
